@@ -157,6 +157,11 @@ def eq_values(I, st, a, b):
                 if len(outs) != 1 or isinstance(outs[0][1], Exc) or outs[0][0] is not st:
                     raise Unsupported("== inside a container comparison through a user-defined __eq__ that forks or raises")
                 return outs[0][1]
+    if is_view(st, a) or is_view(st, b):
+        if isinstance(a, Ref) and isinstance(b, Ref) and a.id == b.id:
+            return True
+        # keys / items views compare as sets, values views by identity - never as the list the model keeps
+        raise Unsupported("== on a dictionary view")
     if isinstance(a, Ref) and isinstance(b, Ref):
         ea, eb = st.get(a), st.get(b)
         if ea.kind != eb.kind:
@@ -219,6 +224,11 @@ def eq_values(I, st, a, b):
         return a == b
     except Exception:
         raise Unsupported("== on %r, %r" % (a, b))
+
+
+def is_view(st, v):
+    """v is a d.keys() / d.values() / d.items() view (values.DictViewE)"""
+    return isinstance(v, Ref) and st.store[v.id].__class__ is DictViewE
 
 
 def seq_eq(I, st, xs, ys):
@@ -569,6 +579,8 @@ def slice_concrete(I, n, s):
 
 
 def getitem(I, st, obj, idx):
+    if is_view(st, obj):
+        raise Unsupported("subscript of a dictionary view (TypeError in Python)")
     from . import npmodel
     from .symex import FrozenList, FrozenDict, FrozenNd
 
@@ -854,6 +866,8 @@ def dict_symbolic_get(I, st, e, idx):
 
 
 def setitem(I, st, obj, idx, v):
+    if is_view(st, obj):
+        raise Unsupported("subscript of a dictionary view (TypeError in Python)")
     from . import npmodel
 
     if isinstance(obj, HeapSeq):
@@ -949,6 +963,8 @@ def setitem(I, st, obj, idx, v):
 
 
 def delitem(I, st, obj, idx):
+    if is_view(st, obj):
+        raise Unsupported("subscript of a dictionary view (TypeError in Python)")
     from .attrs import ObjDict as _ObjDict
 
     if isinstance(obj, _ObjDict):
@@ -1035,13 +1051,17 @@ def iterate(I, st, v):
     if isinstance(v, Ref):
         e = st.get(v)
         if e.kind in ("list", "deque"):
-            from .loops import lazy_note
+            from .loops import lazy_note, lazy_check
 
+            # the result of an eagerly evaluated lazy iterator (generator expression, iter(), ...) is consumed HERE: what
+            # it was computed from must not have changed since (CPython would compute it only now)
+            lazy_check(st, st.ghost.get(("lazy_src", v.id)))
             lazy_note(st, v, e.items)
             return list(e.items)
-        if e.kind == "set":
-            return list(e.items)
-        if e.kind == "dict":
+        if e.kind in ("set", "dict"):
+            from .loops import lazy_note
+
+            lazy_note(st, v, list(e.items))  # a lazy iterator over a set / the keys of a dictionary depends on them
             return list(e.items)
         if e.kind == "nd":
             from . import npmodel
